@@ -1140,6 +1140,10 @@ package sarama
 //@   returns b, err
 //@   modifies nothing
 
+//@ func (c Client) RefreshMetadata(topics) trusted
+//@   returns err
+//@   modifies nothing
+
 //@ func (p *asyncProducer) getBrokerProducer(broker) trusted
 //@   returns bp
 //@   ensures bp != nil
@@ -1406,6 +1410,7 @@ package sarama
 //@   ensures[duplicate_is_success @C05] response != nil && block != nil && block.Err == ErrDuplicateSequenceNumber ==> forall i :: 0 <= i && i < len(pSet.msgs) ==> pSet.msgs[i].Offset == old(pSet.msgs[i].Offset) && pSet.msgs[i].succEvents == old(pSet.msgs[i].succEvents) + ite(bp.parent.conf.Producer.Return.Successes, 1, 0)
 //@   ensures[disposed_once @C01] response == nil || block == nil || bp.parent.conf.Producer.Retry.Max <= 0 || !(block.Err == ErrInvalidMessage || block.Err == ErrUnknownTopicOrPartition || block.Err == ErrLeaderNotAvailable || block.Err == ErrNotLeaderForPartition || block.Err == ErrRequestTimedOut || block.Err == ErrNotEnoughReplicas || block.Err == ErrNotEnoughReplicasAfterAppend) ==> forall i :: 0 <= i && i < len(pSet.msgs) ==> pSet.msgs[i].disp == old(pSet.msgs[i].disp) + 1
 //@   ensures[left_for_retry @C01] response != nil && block != nil && bp.parent.conf.Producer.Retry.Max > 0 && (block.Err == ErrInvalidMessage || block.Err == ErrUnknownTopicOrPartition || block.Err == ErrLeaderNotAvailable || block.Err == ErrNotLeaderForPartition || block.Err == ErrRequestTimedOut || block.Err == ErrNotEnoughReplicas || block.Err == ErrNotEnoughReplicasAfterAppend) ==> forall i :: 0 <= i && i < len(pSet.msgs) ==> pSet.msgs[i].disp == old(pSet.msgs[i].disp)
+//@   ensures[left_for_retry_is_recorded @C01] response != nil && block != nil && bp.parent.conf.Producer.Retry.Max > 0 && (block.Err == ErrInvalidMessage || block.Err == ErrUnknownTopicOrPartition || block.Err == ErrLeaderNotAvailable || block.Err == ErrNotLeaderForPartition || block.Err == ErrRequestTimedOut || block.Err == ErrNotEnoughReplicas || block.Err == ErrNotEnoughReplicasAfterAppend) ==> len(retryTopics) > 0
 //@   loop 0: invariant arr(pSet.msgs) == old(arr(pSet.msgs)) && off(pSet.msgs) == old(off(pSet.msgs)) && len(pSet.msgs) == old(len(pSet.msgs))
 //@   loop 0: invariant forall j :: 0 <= j && j < len(pSet.msgs) ==> pSet.msgs[j].disp == old(pSet.msgs[j].disp) && pSet.msgs[j].Offset == old(pSet.msgs[j].Offset)
 //@   loop 1: invariant arr(pSet.msgs) == old(arr(pSet.msgs)) && off(pSet.msgs) == old(off(pSet.msgs)) && len(pSet.msgs) == old(len(pSet.msgs))
@@ -1438,11 +1443,13 @@ package sarama
 //@   ensures[disposed_once] forall i :: 0 <= i && i < len(pSet.msgs) ==> pSet.msgs[i].disp == old(pSet.msgs[i].disp) + 1
 
 //@ func (bp *brokerProducer) handleError(sent, err) props C01
-//@   requires sent != bp.buffer && sent != nil && bp.buffer != nil
+//@   requires sent != bp.buffer && sent != nil && bp.buffer != nil && bp.parent != nil
 //@   ensures[sent_swept] sent.swept == old(sent.swept) + 1
 //@   ensures[buffer_swept] err == nil || dyntype(err) != typeid(PacketEncodingError) ==> forall ps *produceSet :: ps == old(bp.buffer) ==> ps.swept == old(ps.swept) + 1
 //@   ensures[buffer_kept_on_encoding_error] err != nil && dyntype(err) == typeid(PacketEncodingError) ==> bp.buffer == old(bp.buffer) && bp.buffer.swept == old(bp.buffer.swept)
 //@   ensures[swept_buffer_is_replaced] err == nil || dyntype(err) != typeid(PacketEncodingError) ==> bp.buffer != nil && bp.buffer != old(bp.buffer) && bp.buffer != sent
+//@   effect sent.handled == old(sent.handled) + 1
+//@   modifies sent.handled, bp.buffer, bp.timer, bp.timerFired, bp.closing, produceSet.swept, ProducerMessage.disp, ProducerMessage.errEvents, ProducerMessage.succEvents, ProducerMessage.flags, ProducerMessage.retries, ProducerMessage.sequenceNumber, ProducerMessage.producerEpoch, ProducerMessage.hasSequence, ProducerMessage.Offset, ProducerMessage.Timestamp, transactionManager.producerEpoch, $wg, maps
 
 // connection management touches no message, produce set or ghost accounting (A-own)
 //@ func (b *Broker) Close() trusted
@@ -2260,10 +2267,33 @@ package sarama
 // brokerProducer: the would-overflow test guards every add (C16). A message is added to the worker's buffer only if
 // the admission test says it fits, or the buffer has just been rolled over and is empty (a single message may exceed
 // a limit on its own - the dispatcher has already rejected messages larger than MaxMessageBytes).
-//@ func (bp *brokerProducer) handleResponse(response) trusted
-//@   ensures[flush_timer_kept] old(bp.parent.conf.Producer.Flush.Frequency > 0 && bp.buffer.bufferCount > 0 ==> bp.timer != nil) ==> (bp.parent.conf.Producer.Flush.Frequency > 0 && bp.buffer.bufferCount > 0 ==> bp.timer != nil)
-//@   modifies bp.buffer, bp.timer, bp.timerFired, bp.closing, produceSet.bufferBytes, produceSet.bufferCount, produceSet.msgs, produceSet.swept, partitionSet.bufferBytes, partitionSet.msgs, ProducerMessage.disp, ProducerMessage.errEvents, ProducerMessage.succEvents, ProducerMessage.flags, ProducerMessage.retries, ProducerMessage.sequenceNumber, ProducerMessage.producerEpoch, ProducerMessage.hasSequence, ProducerMessage.Offset, ProducerMessage.Timestamp, transactionManager.producerEpoch, $wg, maps
-//@   ensures[buffer_well_formed] bp.buffer != nil && 0 <= bp.buffer.bufferBytes && bp.buffer.bufferBytes <= 2305843009213693952 && (forall t string, p int32 :: bp.buffer.msgs[t] != nil && bp.buffer.msgs[t][p] != nil ==> 0 <= bp.buffer.msgs[t][p].bufferBytes && bp.buffer.msgs[t][p].bufferBytes <= 2305843009213693952)
+// (C01) handleResponse: the produce set a response answers is handled exactly once, as a failure when the response
+// carries an error and as the broker's answer otherwise - never both, never neither, and never another set.
+// (flush_timer_kept and buffer_well_formed are what brokerProducer.run relies on; they are assumed, not verified.)
+//@ func (bp *brokerProducer) handleResponse(response) props C01
+//@   requires response != nil && response.set != nil && bp.buffer != nil && response.set != bp.buffer && bp.parent != nil
+//@   callsite brokerProducer.handleError: requires[a_failed_request_fails_its_own_set] $sent == response.set && $err == response.err && response.err != nil
+//@   callsite brokerProducer.handleSuccess: requires[an_answer_is_applied_to_its_own_set] $sent == response.set && $response == response.res && response.err == nil
+//@   ensures[handled_exactly_once] response.set.handled == old(response.set.handled) + 1
+//@   ensures[never_left_with_an_unusable_buffer] bp.buffer != nil
+//@   nosafety
+//@   assumed[flush_timer_kept] old(bp.parent.conf.Producer.Flush.Frequency > 0 && bp.buffer.bufferCount > 0 ==> bp.timer != nil) ==> (bp.parent.conf.Producer.Flush.Frequency > 0 && bp.buffer.bufferCount > 0 ==> bp.timer != nil)
+//@   modifies bp.buffer, bp.timer, bp.timerFired, bp.closing, response.set.handled, produceSet.bufferBytes, produceSet.bufferCount, produceSet.msgs, produceSet.swept, partitionSet.bufferBytes, partitionSet.msgs, ProducerMessage.disp, ProducerMessage.errEvents, ProducerMessage.succEvents, ProducerMessage.flags, ProducerMessage.retries, ProducerMessage.sequenceNumber, ProducerMessage.producerEpoch, ProducerMessage.hasSequence, ProducerMessage.Offset, ProducerMessage.Timestamp, transactionManager.producerEpoch, $wg, maps
+//@   assumed[buffer_well_formed] bp.buffer != nil && 0 <= bp.buffer.bufferBytes && bp.buffer.bufferBytes <= 2305843009213693952 && (forall t string, p int32 :: bp.buffer.msgs[t] != nil && bp.buffer.msgs[t][p] != nil ==> 0 <= bp.buffer.msgs[t][p].bufferBytes && bp.buffer.msgs[t][p].bufferBytes <= 2305843009213693952)
+// handled counts the times a sent produce set was given to handleSuccess or handleError
+//@ ghost field produceSet.handled int
+// handleSuccess (outer body): the first pass sweeps the sent set once; the second (re-queueing) pass runs exactly when
+// the first pass left some partition set for retry, and it sweeps the same set; the pending buffer object is kept.
+//@ func (bp *brokerProducer) handleSuccess(sent, response) props C01
+//@   requires sent != nil && bp.buffer != nil && sent != bp.buffer && bp.parent != nil
+//@   effect sent.handled == old(sent.handled) + 1
+//@   ensures[buffer_object_kept] bp.buffer == old(bp.buffer)
+//@   ensures[retry_pass_runs_when_a_set_was_left_for_retry] len(retryTopics) > 0 ==> sent.swept == old(sent.swept) + 2
+//@   ensures[single_pass_otherwise] len(retryTopics) == 0 ==> sent.swept == old(sent.swept) + 1
+//@   callsite produceSet.eachPartition#0: requires[first_pass_over_the_sent_set] $recv == sent
+//@   callsite produceSet.eachPartition#1: requires[retry_pass_over_the_sent_set] $recv == sent && len(retryTopics) > 0
+//@   nosafety
+//@   modifies sent.handled, bp.timer, bp.timerFired, produceSet.bufferBytes, produceSet.bufferCount, produceSet.msgs, produceSet.swept, partitionSet.bufferBytes, partitionSet.msgs, ProducerMessage.disp, ProducerMessage.errEvents, ProducerMessage.succEvents, ProducerMessage.flags, ProducerMessage.retries, ProducerMessage.sequenceNumber, ProducerMessage.producerEpoch, ProducerMessage.hasSequence, ProducerMessage.Offset, ProducerMessage.Timestamp, transactionManager.producerEpoch, $wg, maps
 //@ func (bp *brokerProducer) needsRetry(msg) props C16
 //@   returns e
 //@   requires msg != nil
@@ -2374,26 +2404,54 @@ package sarama
 //@   returns err
 //@   ensures err == nil ==> pp.brokerProducer != nil
 //@   modifies pp.leader, pp.brokerProducer, $wg
-//@ func (pp *partitionProducer) newHighWatermark(hwm) trusted
-//@   modifies pp.highWatermark, pp.brokerProducer, $wg, partitionProducer.retryState
+// (C01) newHighWatermark: the level is raised to the retry count just seen, a chaser (fin) for the level below is
+// sent to the broker worker that may still hold messages of it - counted in flight first, so that shutdown waits for
+// it - the new level expects its own chaser, and the broker selection is dropped.
+//@ func (pp *partitionProducer) newHighWatermark(hwm) props C01
+//@   requires[level_within_the_retry_budget] 0 < hwm && hwm < len(pp.retryState)
+//@   requires pp.parent != nil
+//@   callsite send.input: requires[chaser_of_the_level_below] $value.flags == fin && $value.retries == hwm - 1 && $value.Topic == pp.topic && $value.Partition == pp.partition
+//@   callsite send.input: requires[chaser_counted_in_flight_before_it_is_sent] wgcount(pp.parent.inFlight) == old(wgcount(pp.parent.inFlight)) + 1
+//@   callsite send.input: requires[sent_to_the_abandoned_worker] $channel == old(pp.brokerProducer).input
+//@   ensures[level_raised] pp.highWatermark == hwm && pp.retryState[hwm].expectChaser
+//@   ensures[chaser_counted_in_flight] wgcount(pp.parent.inFlight) == old(wgcount(pp.parent.inFlight)) + 1
+//@   ensures[broker_selection_dropped] pp.brokerProducer == nil
+//@   ensures[buffers_kept] len(pp.retryState) == old(len(pp.retryState)) && forall k :: 0 <= k && k < len(pp.retryState) ==> pp.retryState[k].buf == old(pp.retryState[k].buf)
+//@   modifies pp.highWatermark, pp.brokerProducer, $wg, pp.retryState
 // (C01) every retry level that has been flushed - its messages handed to the broker worker, or failed because no
 // leader could be found - is emptied before the next level is looked at, so no message of it can be sent (or failed)
 // a second time by a later flush
 //@ func (pp *partitionProducer) flushRetryBuffers() props C01
 //@   loop 0: iter_ensures[flushed_level_is_emptied] isnil(pp.retryState[pp.highWatermark].buf)
+// the flush walks down from a raised level and never leaves the range of retry levels
+//@   requires[flushing_below_a_raised_level] 1 <= pp.highWatermark && pp.highWatermark < len(pp.retryState)
+//@   loop 0: invariant[level_in_range] 1 <= pp.highWatermark && pp.highWatermark < len(pp.retryState) && len(pp.retryState) == old(len(pp.retryState)) && pp.highWatermark <= old(pp.highWatermark)
+//@   ensures[level_lowered_within_range] 0 <= pp.highWatermark && pp.highWatermark < old(pp.highWatermark) && len(pp.retryState) == old(len(pp.retryState))
 //@   nosafety
 //@   modifies pp.highWatermark, pp.brokerProducer, pp.leader, $wg, partitionProducer.retryState, ProducerMessage.disp, ProducerMessage.errEvents, ProducerMessage.succEvents, ProducerMessage.flags, ProducerMessage.retries, ProducerMessage.sequenceNumber, ProducerMessage.producerEpoch, ProducerMessage.hasSequence, transactionManager.producerEpoch, map:pp.parent.txnmgr.sequenceNumbers
 //@ func (pp *partitionProducer) backoff(retries) trusted
 //@   modifies nothing
 //@ func (p *asyncProducer) unrefBrokerProducer(broker, bp) trusted
 //@   modifies nothing
+// A-input bound (stated on the channel, an obligation where the topic worker sends): a message reaching a partition
+// worker has used at most Retry.Max retries - which is what keeps pp.retryState[msg.retries] in range
+//@ channel partitionProducer.input m
+//@   recv ensures m != nil && 0 <= m.retries && m.retries <= owner.parent.conf.Producer.Retry.Max
 //@ func (pp *partitionProducer) dispatch() props C05 C01
 //@   requires pp.parent != nil && pp.parent.conf != nil && pp.parent.txnmgr != nil && pp.parent.txnmgr.sequenceNumbers != nil
+//@   requires[one_retry_level_per_allowed_retry] pp.parent.conf.Producer.Retry.Max >= 0 && len(pp.retryState) == pp.parent.conf.Producer.Retry.Max + 1 && pp.highWatermark == 0
+//@   loop 0: invariant[levels_kept] len(pp.retryState) == pp.parent.conf.Producer.Retry.Max + 1 && 0 <= pp.highWatermark && pp.highWatermark < len(pp.retryState)
 //@   callsite transactionManager.getAndIncrementSequenceNumber: requires[first_pass_only] msg.retries == 0 && msg.flags == 0 && pp.parent.conf.Producer.Idempotent
 //@   callsite transactionManager.getAndIncrementSequenceNumber: requires[own_partition_counter] $topic == msg.Topic && $partition == msg.Partition
 //@   callsite send.input#1: requires[hands_over_the_received_message] $value == msg && pp.brokerProducer != nil
 //@   callsite send.input#1: requires[stamped_iff_first_pass_of_an_idempotent_producer] pp.parent.conf.Producer.Idempotent && msg.retries == 0 && msg.flags == 0 ==> msg.hasSequence
 //@   loop 0: invariant pp.parent == old(pp.parent) && pp.parent.conf == old(pp.parent.conf) && pp.parent.txnmgr == old(pp.parent.txnmgr) && pp.parent.txnmgr.sequenceNumbers != nil
+// (C01) every data message received by the partition worker is, in that same iteration, handed to the broker worker,
+// failed (no leader), or parked - once - at the end of the retry buffer of its own level (flushRetryBuffers takes it
+// from there); nothing else happens to it
+//@   callsite send.input#1: modifies msg.disp
+//@   callsite send.input#1: effect msg.disp == old(msg.disp) + 1
+//@   loop 0: iter_ensures[data_message_sent_failed_or_parked_once @C01] it(msg.flags)&fin != fin && it(msg.retries) >= 0 ==> (msg.disp == it(msg.disp) + 1 && (it(msg.retries) >= it(pp.highWatermark) || it(pp.highWatermark) <= 0)) || (msg.disp == it(msg.disp) && it(msg.retries) < it(pp.highWatermark) && len(pp.retryState[it(msg.retries)].buf) == it(len(pp.retryState[msg.retries].buf)) + 1 && pp.retryState[it(msg.retries)].buf[len(pp.retryState[it(msg.retries)].buf) - 1] == msg)
 //@   nosafety
 
 // Config.Validate (C05, C16): a configuration that validates satisfies the idempotent producer's preconditions, and
